@@ -463,20 +463,29 @@ theorem showInt_ne_nil (i : Int) : showInt i ≠ [] := by
   · simp
   · exact natDigits_ne_nil _ _
 
-/-- Well-formed words: what the parser produces (non-empty literals) and the one real restriction,
-    no empty `""` (finding C22-empty-dquotes: it adds no part to the field). -/
-def SegWF : Seg → Prop
-  | .unq (.lit raw) => raw ≠ []
-  | .dq ps => ps ≠ []
-  | _ => True
-
 def Sim (s : WF) (r : Option WF) (a : Option (List Atom)) : Prop :=
   match r, a with
   | some s', some as => (∀ rest, out s' rest = out s (as ++ rest)) ∧ (Inv s → Inv s')
   | none, none => True
   | _, _ => False
 
-theorem seg_sim (env : Env) (first more : Bool) (s : WF) (seg : Seg) (hwf : SegWF seg) :
+theorem unbackslash_nil : unbackslash [] = [] := by rw [unbackslash.eq_def]
+
+theorem out_addIf (s : WF) (t : Bytes) (q : Bool) (rest : List Atom) :
+    out (if t.isEmpty then s else s.add ⟨t, q⟩) rest = out s (textAtoms t ++ rest) := by
+  by_cases ht : t.isEmpty = true
+  · have : t = [] := List.isEmpty_iff.mp ht
+    subst this; simp [textAtoms]
+  · simp only [ht, Bool.false_eq_true, if_false]
+    exact out_add_text s t q rest (Or.inl (by intro h; simp [h] at ht))
+
+theorem inv_addIf {s : WF} (c : Bool) (p : FPart) (h : Inv s) : Inv (if c then s else s.add p) := by
+  by_cases hc : c = true
+  · simpa [hc] using h
+  · simp only [hc, Bool.false_eq_true, if_false]
+    intro _; exact live_add s p
+
+theorem seg_sim (env : Env) (first more : Bool) (s : WF) (seg : Seg) :
     Sim s (segStep env first more s seg) (segAtoms env first more seg) := by
   cases seg with
   | sq v =>
@@ -486,7 +495,6 @@ theorem seg_sim (env : Env) (first more : Bool) (s : WF) (seg : Seg) (hwf : SegW
     simpa [out, stOf] using this
   | dq ps =>
     simp only [segStep, segAtoms]
-    have hps : ps ≠ [] := hwf
     have hd := dq_fold env ps { s with allowEmpty := true }
     cases he : expandPartsQ env true ps with
     | none =>
@@ -494,42 +502,54 @@ theorem seg_sim (env : Env) (first more : Bool) (s : WF) (seg : Seg) (hwf : SegW
       simp [Sim]
     | some v =>
       simp only [he, Option.map_some] at hd ⊢
-      cases hf : ps.foldlM (fun (s : WF) p => (expandPartQ env true p).map fun v => s.add ⟨v, true⟩)
-          { s with allowEmpty := true } with
-      | none => simp [hf] at hd
-      | some s' =>
-        simp only [hf] at hd
-        obtain ⟨h1, _, h3, h4, _⟩ := hd
-        simp only [Sim]
-        refine ⟨fun rest => ?_, fun _ _ => Or.inr (h4 hps)⟩
-        unfold out
-        have hne : s'.cur ≠ [] := h4 hps
-        have hst : stOf s' = some (fieldText s.cur ++ v) := by
-          unfold stOf
-          have : s'.cur.isEmpty = false := by
-            cases hc : s'.cur with
-            | nil => exact absurd hc hne
-            | cons _ _ => rfl
-          simp [this, h3]
-        rw [hst, h1]
-        simp only [List.cons_append]
-        rw [splitAtoms_mark, splitAtoms_text_some, getT_stOf]
+      by_cases hps : ps.isEmpty = true
+      · have hnil : ps = [] := List.isEmpty_iff.mp hps
+        subst hnil
+        simp only [expandPartsQ, Option.some.injEq] at he
+        subst he
+        simp only [List.isEmpty_nil, if_true, Sim]
+        refine ⟨fun rest => ?_, fun _ _ => live_add _ _⟩
+        have := out_add_mark_text { s with allowEmpty := true } [] true rest
+        simpa [out, stOf] using this
+      · simp only [hps, Bool.false_eq_true, if_false]
+        have hps' : ps ≠ [] := by intro h; simp [h] at hps
+        cases hf : ps.foldlM (fun (s : WF) p => (expandPartQ env true p).map fun v => s.add ⟨v, true⟩)
+            { s with allowEmpty := true } with
+        | none => simp [hf] at hd
+        | some s' =>
+          simp only [hf] at hd
+          obtain ⟨h1, _, h3, h4, _⟩ := hd
+          simp only [Sim]
+          refine ⟨fun rest => ?_, fun _ _ => Or.inr (h4 hps')⟩
+          unfold out
+          have hne : s'.cur ≠ [] := h4 hps'
+          have hst : stOf s' = some (fieldText s.cur ++ v) := by
+            unfold stOf
+            have : s'.cur.isEmpty = false := by
+              cases hc : s'.cur with
+              | nil => exact absurd hc hne
+              | cons _ _ => rfl
+            simp [this, h3]
+          rw [hst, h1]
+          simp only [List.cons_append]
+          rw [splitAtoms_mark, splitAtoms_text_some, getT_stOf]
   | unq p =>
     cases p with
     | lit raw =>
-      simp only [segStep, segAtoms]
-      by_cases hf : first = true
-      · subst hf
-        simp only [if_true, Sim]
-        refine ⟨fun rest => ?_, fun _ _ => live_add _ _⟩
-        rw [out_add_text _ _ false rest (Or.inr (by rw [stOf_add]; rfl))]
-        rw [out_add_mark_text]
-        simp [List.append_assoc]
-      · have hf' : first = false := by simpa using hf
-        subst hf'
-        simp only [Bool.false_eq_true, if_false, Sim]
-        have hraw : raw ≠ [] := hwf
-        exact ⟨fun rest => out_add_text s _ false rest (Or.inl (unbackslash_ne_nil hraw)), fun _ _ => live_add _ _⟩
+      simp only [segStep, segAtoms, Sim]
+      generalize (if first = true then expandUser env raw more else ([], raw)) = pr
+      refine ⟨fun rest => ?_, fun hi => ?_⟩
+      · have h2 : pr.2.isEmpty = (unbackslash pr.2).isEmpty := by
+          cases h : pr.2 with
+          | nil => simp [unbackslash_nil]
+          | cons c r =>
+            have := unbackslash_ne_nil (raw := c :: r) (by simp)
+            cases hu : unbackslash (c :: r) with
+            | nil => exact absurd hu this
+            | cons _ _ => simp
+        rw [h2, out_addIf, out_addIf, List.append_assoc]
+      · rw [show (pr.2.isEmpty) = (pr.2.isEmpty) from rfl]
+        exact inv_addIf _ _ (inv_addIf _ _ hi)
     | param n =>
       simp only [segStep, segAtoms, Sim]
       exact ⟨fun rest => splitAdd_sim s _ rest, fun h => splitAdd_inv _ h⟩
@@ -544,16 +564,16 @@ theorem seg_sim (env : Env) (first more : Bool) (s : WF) (seg : Seg) (hwf : SegW
         simp only [Option.map_some, Sim]
         exact ⟨fun rest => out_add_text s _ false rest (Or.inl (showInt_ne_nil v)), fun _ _ => live_add _ _⟩
 
-theorem segLoop_sim (env : Env) : ∀ (segs : List Seg) (first : Bool) (s : WF), (∀ seg ∈ segs, SegWF seg) →
+theorem segLoop_sim (env : Env) : ∀ (segs : List Seg) (first : Bool) (s : WF),
     Sim s (segLoop env first s segs) (wordAtoms env first segs) := by
   intro segs
   induction segs with
   | nil =>
-    intro first s _
+    intro first s
     simp [segLoop, wordAtoms, Sim]
   | cons seg rest ih =>
-    intro first s hwf
-    have h1 := seg_sim env first (!rest.isEmpty) s seg (hwf seg (List.mem_cons_self ..))
+    intro first s
+    have h1 := seg_sim env first (!rest.isEmpty) s seg
     simp only [segLoop, wordAtoms]
     cases hs : segStep env first (!rest.isEmpty) s seg with
     | none =>
@@ -565,7 +585,7 @@ theorem segLoop_sim (env : Env) : ∀ (segs : List Seg) (first : Bool) (s : WF),
       | none => simp [hs, ha, Sim] at h1
       | some as =>
         simp only [hs, ha, Sim] at h1
-        have h2 := ih false s' (fun x hx => hwf x (List.mem_cons_of_mem _ hx))
+        have h2 := ih false s'
         simp only [Option.bind_eq_bind, Option.bind_some]
         cases hl : segLoop env false s' rest with
         | none =>
@@ -582,9 +602,9 @@ theorem segLoop_sim (env : Env) : ∀ (segs : List Seg) (first : Bool) (s : WF),
             rw [h2.1 r, h1.1 (bs ++ r), List.append_assoc]
 
 /-- One word: the machine of `wordFields` produces the fields the atoms split into. -/
-theorem wordFields_eq_wordArgs (env : Env) (segs : List Seg) (hwf : ∀ seg ∈ segs, SegWF seg) :
+theorem wordFields_eq_wordArgs (env : Env) (segs : List Seg) :
     wordFields env segs = wordArgs env segs := by
-  have h := segLoop_sim env segs true ⟨[], [], false⟩ hwf
+  have h := segLoop_sim env segs true ⟨[], [], false⟩
   unfold wordFields wordArgs
   cases hl : segLoop env true ⟨[], [], false⟩ segs with
   | none =>
